@@ -842,7 +842,9 @@ func c09PoolCurrent(p *chk.Prog, r *chk.Report) {
 		n++
 		call := hs.Node.(*ast.CallExpr)
 		ips, pool := call.Args[2], call.Args[4]
-		sameIPs := func(e ast.Expr) bool { return f.ObjOf(ips) != nil && f.ObjOf(e) == f.ObjOf(ips) }
+		// (through plain copies: a record of the call's operands taken apart again)
+		ipsObj := f.ObjOf(ast.Unparen(f.Resolve(ips)))
+		sameIPs := func(e ast.Expr) bool { return ipsObj != nil && f.ObjOf(ast.Unparen(f.Resolve(e))) == ipsObj }
 		fromPoolFor := definedBy(g, "poolFor(RECV.config.Pools, IPS)", chk.H("IPS", sameIPs))
 		ok := fromPoolFor(pool) || definedBy(g, "RECV.config.Pools.ByName[N]", chk.H("N", fromPoolFor))(pool)
 		x.Check("SetBalancer:pool-of-the-current-addresses", hs.Pos(), ok, "", "the pool the Service is announced for does not come, on every path, from poolFor(c.config.Pools, <the addresses announced>): a pool remembered from an earlier sync keeps its advertisements and node selectors in force after the configuration moved the addresses elsewhere")
